@@ -3,7 +3,7 @@
 # like try.sh but entirely on scratch copies (worktree of /repo HEAD + copy of the harness with its own target dir)
 # (FEATURES=--no-default-features builds the runtime without work_steal) under /tmp/mayverif-try, so that /repo and /verif/target-hooks stay untouched. Remove the directory when done:
 #   git -C /repo worktree remove --force /tmp/mayverif-try/wt; rm -rf /tmp/mayverif-try
-P="$(realpath "$1")"; ID="$2"; TIER="${3:-quick}"; S=/tmp/mayverif-try
+P="$(realpath "$1")"; ID="$2"; TIER="${3:-quick}"; S=${TRY_DIR:-/tmp/mayverif-try}
 export CARGO_NET_OFFLINE=true
 if [ ! -d "$S/wt" ]; then mkdir -p "$S/out"; git -C /repo worktree prune; git -C /repo worktree add -q --detach "$S/wt" HEAD || exit 2; fi
 git -C "$S/wt" reset -q --hard 2>/dev/null; git -C "$S/wt" checkout -q --detach "$(git -C /repo rev-parse HEAD)"; git -C "$S/wt" checkout -q -- .
